@@ -407,13 +407,39 @@ func (t *transpiler) evaluateVarDefinitionCallAssignment(definition parser.Varia
 }
 
 func (t *transpiler) evaluateVarAssignment(assignment parser.VariableAssignment) error {
-	for i, variable := range assignment.Variables() {
+	variables := assignment.Variables()
+	values := []string{}
+
+	// Evaluate all values before assigning any variable (a, b = b, a must use the old values).
+	for i := range variables {
 		result, err := t.evaluateExpression(assignment.Values()[i], true)
 
 		if err != nil {
 			return err
 		}
-		err = t.converter.VarDefinition(variable.Name(), result.firstValue(), variable.Global())
+		values = append(values, result.firstValue())
+	}
+
+	// Values are references to variables, therefore buffer them if more than one variable is assigned.
+	if len(variables) > 1 {
+		for i, value := range values {
+			helper := fmt.Sprintf("_ma%d", i)
+			err := t.converter.VarDefinition(helper, value, false)
+
+			if err != nil {
+				return err
+			}
+			buffered, err := t.converter.VarEvaluation(helper, true, false)
+
+			if err != nil {
+				return err
+			}
+			values[i] = buffered
+		}
+	}
+
+	for i, variable := range variables {
+		err := t.converter.VarDefinition(variable.Name(), values[i], variable.Global())
 
 		if err != nil {
 			return err
